@@ -113,6 +113,8 @@ def main():
       "engines": [
         {"name": "E1-proptest", "path": "harness/", "serves_properties": sorted(CHECKS.keys()),
          "kind_free_text": "proptest 1.11 driven from a binary: fixed case counts, ChaCha seeded from VERIF_SEED, sharded over the cores, shrinking, replay files; complete enumeration for finite sub-spaces"},
+        {"name": "E2-libfuzzer", "path": "fuzz/", "serves_properties": ["C05", "C07", "C08", "C09", "C10", "C11", "C14", "C15"],
+         "kind_free_text": "cargo-fuzz / libFuzzer targets fz_decode, fz_recover, fz_ppoprf, fz_wasm, fz_server, fz_field; the semantic oracle is inside the target (harness/src/fuzzentry.rs, shared with E1); bounded campaigns (-runs, -seed) from a deterministic seed corpus and from an empty corpus, thorough tier only; artefacts are classified and replayed through the harness binary"},
       ],
       "checks": checks,
       "notes": "run.sh rebuilds the harness (path dependencies on /repo) before every check; exit 2 = inconclusive (build failure / watchdog), never a violation. Known findings: known_findings.json.",
